@@ -340,3 +340,135 @@ func zzCopyReg(failAt int) {
 	}
 	_ = json.Valid
 }
+
+// Copy options between two registries: forced recursion onto a target whose
+// tag already equals the source but whose content is incomplete, referrers
+// (source and target each with the referrers API or the fallback tag) and
+// digest tags.
+func ZZC03_copy_options() {
+	zzSmall = true
+	w := zzBuildWorld()
+	ra, rb := zzreg.New(zzHostA), zzreg.New(zzHostB)
+	ra.ValidateRefs, rb.ValidateRefs = false, false
+	net := &zzNet{regs: map[string]*zzreg.Registry{zzHostA: ra, zzHostB: rb}, ext: map[string][]byte{}}
+	reghttp.ZZHook_Client_Do = net.do
+	w.zzLoadRepo(rb, "src", "v1")
+	rb.ReferrersAPI = zzBool("source_has_referrers_api")
+	ra.ReferrersAPI = zzBool("target_has_referrers_api")
+	rSrc, _ := ref.New(zzHostB + "/src:v1")
+	rTgt, _ := ref.New(zzHostA + "/tgt:v1")
+
+	// an artifact that names the image as its subject, and a digest tag for it
+	sigBlob := []byte("signature")
+	sigDig := rb.PutBlob("src", sigBlob)
+	emptyDig := rb.PutBlob("src", []byte("{}"))
+	art, _ := json.Marshal(map[string]interface{}{
+		"schemaVersion": 2, "mediaType": "application/vnd.oci.image.manifest.v1+json", "artifactType": "application/example.sig",
+		"config":  map[string]interface{}{"mediaType": "application/vnd.oci.empty.v1+json", "digest": emptyDig, "size": 2},
+		"layers":  []interface{}{map[string]interface{}{"mediaType": "application/octet-stream", "digest": sigDig, "size": len(sigBlob)}},
+		"subject": map[string]interface{}{"mediaType": w.top.MediaType, "digest": w.top.Digest.String(), "size": w.top.Size},
+	})
+	artDig := rb.PutManifest("src", "", "application/vnd.oci.image.manifest.v1+json", art)
+	fallbackTag := "sha256-" + w.top.Digest.Encoded()
+	if !rb.ReferrersAPI {
+		idx, _ := json.Marshal(map[string]interface{}{
+			"schemaVersion": 2, "mediaType": "application/vnd.oci.image.index.v1+json",
+			"manifests": []interface{}{map[string]interface{}{"mediaType": "application/vnd.oci.image.manifest.v1+json", "digest": artDig, "size": len(art), "artifactType": "application/example.sig"}},
+		})
+		rb.PutManifest("src", fallbackTag, "application/vnd.oci.image.index.v1+json", idx)
+	}
+	digestTag := fallbackTag + ".sig"
+	rb.Repo("src").Tags[digestTag] = artDig
+
+	// options and target pre-state
+	recursive, withRef, withDT := zzBool("force_recursive"), zzBool("referrers"), zzBool("digest_tags")
+	var opts []ImageOpts
+	if recursive {
+		opts = append(opts, ImageWithForceRecursive())
+	}
+	if withRef {
+		opts = append(opts, ImageWithReferrers())
+	}
+	if withDT {
+		opts = append(opts, ImageWithDigestTags())
+	}
+	incomplete := zzBool("target_equal_but_incomplete")
+	if incomplete {
+		// the tag already names the source digest, manifests are there, one blob is missing
+		for _, d := range w.all {
+			if w.mans[d] {
+				mt := "application/vnd.oci.image.manifest.v1+json"
+				if strings.Contains(string(w.bytes[d]), `"manifests"`) {
+					mt = "application/vnd.oci.image.index.v1+json"
+				}
+				ra.PutManifest("tgt", "", mt, w.bytes[d])
+			}
+		}
+		ra.Repo("tgt").Tags["v1"] = w.top.Digest.String()
+		miss := zzInt("missing_blob", 0, len(w.all)-1)
+		for i, d := range w.all {
+			if !w.mans[d] && i != miss {
+				ra.PutBlob("tgt", w.bytes[d])
+			}
+		}
+	}
+	ra.OnCommit = func(kind, repo, dg string, body []byte) {
+		if repo != "tgt" {
+			zzFail("C03_copy_writes_only_to_the_target")
+		}
+		if kind == "manifest" {
+			zzAssert(ra.Repo(repo).RefsPresent(body), "C04_children_before_parents")
+		}
+	}
+	rc := New(WithRegOpts(reg.WithTransport(&http.Transport{})), WithSlog(slog.New(slog.NewTextHandler(io.Discard, nil))))
+	ctx := context.Background()
+	err := rc.ImageCopy(ctx, rSrc, rTgt, opts...)
+	ra.OnCommit = nil
+	zzAssert(err == nil, "C03_copy_without_faults_succeeds")
+	if err != nil {
+		return
+	}
+	zzReach("options_copy_succeeded")
+	tgt := ra.Repo("tgt")
+	zzAssert(tgt.Tags["v1"] == w.top.Digest.String(), "C03_target_tag_is_source_digest")
+	if !incomplete || recursive {
+		// a target that already equals the source is trusted unless recursion is forced
+		if incomplete {
+			zzReach("incomplete_target_completed")
+		}
+		for _, d := range w.all {
+			var got []byte
+			var ok bool
+			if w.mans[d] {
+				got, ok = tgt.Manifests[d.String()]
+			} else {
+				got, ok = tgt.Blobs[d.String()]
+			}
+			zzAssert(ok && string(got) == string(w.bytes[d]), "C03_closure_present_and_identical")
+		}
+	}
+	hasArt := func() bool {
+		b, ok := tgt.Manifests[artDig]
+		_, ok1 := tgt.Blobs[sigDig]
+		_, ok2 := tgt.Blobs[emptyDig]
+		return ok && string(b) == string(art) && ok1 && ok2
+	}
+	if withRef {
+		zzReach("referrers_requested")
+		zzAssert(hasArt(), "C03_referrer_copied_with_its_content")
+		rl, lerr := rc.ReferrerList(ctx, rTgt.SetDigest(w.top.Digest.String()))
+		zzAssert(lerr == nil, "C03_referrers_listed_at_target")
+		n := 0
+		for _, d := range rl.Descriptors {
+			if d.Digest.String() == artDig {
+				n++
+			}
+		}
+		zzAssert(n == 1, "C03_referrers_listed_at_target")
+	}
+	if withDT {
+		zzReach("digest_tags_requested")
+		zzAssert(tgt.Tags[digestTag] == artDig, "C03_digest_tag_copied")
+		zzAssert(hasArt(), "C03_digest_tag_content_copied")
+	}
+}
